@@ -346,6 +346,22 @@ Proof.
   all: try (apply inv_upd_now; exact HR).
 Qed.
 
+(* THEOREM 4c.  Over the whole observable history: every retry mark (IUnsolTimeout q true) is
+   immediately followed by a transmission, and that transmission is byte for byte (and to the same
+   station) the one that opened the unsolicited confirm wait then current - the OTx right before the
+   last IEnterUnsolWait preceding the mark, which announced the same sequence number q.  This covers
+   every retry, also several within one step. *)
+Theorem all_retries_identical cfg h s :
+  Reach cfg h s ->
+  forall h1 q rest, h = h1 ++ OInfo (IUnsolTimeout q true) :: rest ->
+    exists dest b h2, rest = OTx dest b :: h2 /\ opened_by h1 dest b q.
+Proof.
+  intros HR. change (retries_identical h).
+  induction HR as [sel op iin a s o H|h s ev ans s' o HR IH H].
+  - eapply ostart_retries; eauto.
+  - eapply ostep_retries; eauto. apply reach_inv. exact HR.
+Qed.
+
 (* ---------- running a concrete history (for examples) ------------------------------------------------------------------------------- *)
 
 Fixpoint orun_st (cfg : ocfg) (s : ostate) (h : list oobs) (evs : list (oevent * list answer))
